@@ -36,8 +36,12 @@ class Path:
 
 
 class Engine:
-    def __init__(self, feas_timeout_ms=2000):
+    def __init__(self, feas_timeout_ms=2000, skip_ties=False):
         self.feas_timeout_ms = feas_timeout_ms
+        # skip_ties: do not explore the measure-zero tie region of a comparison of reals when a strict
+        # region is feasible (used where tie paths carry no claim anyway); counted in ties_skipped
+        self.skip_ties = skip_ties
+        self.ties_skipped = 0
         self.solver_time = 0.0
         self.feas_queries = 0
         self.reset_fn = None
@@ -132,6 +136,9 @@ class Engine:
         def feas():
             out = []
             for k in (0, 2, 1):  # strict regions first, tie last
+                if k == 1 and self.skip_ties and out:
+                    self.ties_skipped += 1
+                    continue
                 r = self._check(conds[k])
                 if r == z3.unknown:
                     self.path.unknown_feas += 1
